@@ -213,3 +213,14 @@ func meOK(f *function) bool {
 //@   ensures[from-a-populated-slot] offset < uint64(len(table.References)) && table.References[offset] != 0
 //@   may-panic true
 //@   modifies nothing
+
+
+// ---- C06 / C07: how a call through the interpreter ends. The deferred function literal of call() is
+// verified on its own, from an arbitrary state and with recover() arbitrary: a call whose module is
+// closed when it ends never reports success.
+//@ prop C06 C07
+//@ closure 1 (ce *callEngine) call(ctx context.Context, params, results []uint64) (_ []uint64, err error)
+//@   vars (ce *callEngine, err error, m *wasm.ModuleInstance)
+//@   requires ce != nil && m != nil
+//@   ensures[closed-module-is-never-success] err == nil ==> m.Closed.Load() == 0
+//@   nosafety
